@@ -187,6 +187,50 @@ def pair_task(t):
     return dict(op="pairs", n=n, distinct=1, violations=viols, sample=None)
 
 
+def write_fault_task(t):
+    """the write itself fails after k octets (send timeout, connection reset) for every k: whatever the client does next, the
+    octets on the wire must stay a prefix of the ONE intended command - and be exactly it if the call reports an outcome other
+    than an exception"""
+    import socket as _socket
+    op, args = t
+    expected = list(args)
+    viols = []
+    n = 0
+    # the intended command, from a fault-free run
+    srv = refms.RefServer(store={"a": b"keep;\r\n"}, active="a", version=True)
+    s = wire.open_session(srv)
+    m = wire.mark(s)
+    s.call(op, *args)
+    intended = wire.written_since(s, m)
+    for exc_name, make in (("timeout", lambda: _socket.timeout("timed out")), ("reset", lambda: ConnectionResetError("reset by peer")),
+                           ("wantwrite", lambda: __import__("ssl").SSLWantWriteError("want write"))):
+        for k in range(0, len(intended)):
+            srv = refms.RefServer(store={"a": b"keep;\r\n"}, active="a", version=True)
+            s = wire.open_session(srv)
+            m = wire.mark(s)
+            s.cur_socket().write_fault = (k, make)
+            o = s.call(op, *args)
+            data = wire.written_since(s, m)
+            n += 1
+            bad = None
+            if o.kind in ("livelock", "hang"):
+                bad = ("no-return", "call does not return")
+            elif not intended.startswith(data):
+                bad = ("not-a-prefix", "after a %s at octet %d the wire holds %r, which is not a prefix of the intended %r" % (exc_name, k, data[:80], intended[:60]))
+            elif o.kind == "ret" and data != intended:
+                bad = ("reported-without-sending", "the call returned %r although only %d of %d octets were written" % (o.value, len(data), len(intended)))
+            if bad:
+                viols.append({"property": "C08", "engine": "wire", "signature": ["C08", op, "write-fault:" + exc_name, bad[0]],
+                              "what": "%s%r, send fails (%s) after %d octets: %s" % (op, args, exc_name, k, bad[1]),
+                              "case": {"write_fault": [op, list(args)]}, "witness": "%s%r send %s after %d octets" % (op, args, exc_name, k),
+                              "observed": repr(data[:100])})
+    return dict(op=op + "-write-fault", n=n, distinct=1, violations=viols, sample=None)
+
+
+WRITE_FAULT_CALLS = [("putscript", ("main", 'require "fileinto";\r\nfileinto "x";\r\n')), ("setactive", ("main",)), ("deletescript", ('q"x',)),
+                     ("renamescript", ("a", "b")), ("havespace", ("s", 10)), ("getscript", ("a\r\nb",)), ("checkscript", ("keep;",)), ("listscripts", ())]
+
+
 def sweep_task(t):
     """every content / name length in a window: command lengths land on every residue of any power-of-two block size"""
     op, lo, hi = t
@@ -229,6 +273,7 @@ def run(tier, seed):
         for lo in range(0, top if op != "deletescript-escaped" else 3000, 500):
             sw.append((op, lo, min(top, lo + 500)))
     res += pool.run_tasks("checks.c08:sweep_task", sw, chunksize=2)
+    res += pool.run_tasks("checks.c08:write_fault_task", WRITE_FAULT_CALLS)
     nb = len([v for v in values(maxlen - 1) if _encodable([v])])
     res += pool.run_tasks("checks.c08:pair_task", [(lo, lo + 16, maxlen - 1) for lo in range(0, nb, 16)])
     n = sum(r["n"] for r in res)
@@ -251,6 +296,9 @@ def replay(payload):
     if "sweep_len" in c:
         r = sweep_task((op, c["sweep_len"], c["sweep_len"] + 1))
         return r["violations"]
+    if c.get("write_fault"):
+        r = write_fault_task((c["write_fault"][0], tuple(c["write_fault"][1])))
+        return [v for v in r["violations"] if v["signature"] == payload["signature"]]
     if c.get("pair"):
         r = pair_task(("one", c["pair_body"]))
         return [v for v in r["violations"] if v["signature"][:3] == payload["signature"][:3]]
